@@ -58,10 +58,16 @@ def run(chk):
                        "`needsSep` making adjacent tokens re-tokenise apart is checked by oracle and correspondence, not by a theorem; the at-rule dispatch and the rule "
                        "loop ARE covered: sheet_partition (GE/Thm/C17Sheet.lean) — for the whole stylesheet model, no import sign, the written token kinds of both "
                        "outputs are exactly those of a fuel-free token-by-token reading of the input (no token merged, split, dropped, duplicated or reordered at "
-                       "any nesting of rule-bearing at-rules); "
+                       "any nesting of rule-bearing at-rules); sheet_marks (GE/Thm/C08Sheet.lean) — without host conversion, the token / white-space sequence of the whole "
+                       "normal output is the fuel-free reading `goM`: selector white space collapsed exactly as in `ruleMarks` / `selMarks` for top-level rules AND "
+                       "for every rule nested at any depth in rule-bearing at-rules, no white space written between loose at-rule prelude tokens (the separator table "
+                       "decides there); "
                        "the serializer of single tokens is cssparser's"]
     csscheck.run_property(chk, "C08", "GE.Thm.C09", THEOREMS[:4], 700, 12000, extra_cases=extra_cases)
     failed, log = chk.prove("GE.Thm.C08Ws", THM_WS)
+    for t in failed:
+        chk.violation("proof", f"obligation {t} no longer checks", theorem=t, log=log[-3000:])
+    failed, log = chk.prove("GE.Thm.C08Sheet", ["GE.Css.sheet_marks", "GE.Css.rules_marks", "GE.Css.atLoop_marks", "GE.Css.qualLoop_goM"])
     for t in failed:
         chk.violation("proof", f"obligation {t} no longer checks", theorem=t, log=log[-3000:])
     failed, log = chk.prove("GE.Thm.C17Sheet", ["GE.Css.sheet_partition", "GE.Css.rules_sheet", "GE.Css.atLoop_sheet"])
